@@ -922,8 +922,10 @@ LEVEL_TEXT = ("Machine-checked Coq theorems over a hand-written Gallina model of
               "transition system over its atomic sections (connWithOneByte included): for every client byte script and chunking, no upstream "
               "TCP/UDP open without credentials AuthFunc accepted; pipelined bytes reach the upstream unmodified for every read-size sequence; "
               "every run of the mux hands a connection to at most one sub-listener, the one its first byte selects. The model is tied to /repo "
-              "on every run by regenerated constants and a differential run of the three Go packages against the model (vm_compute).")
+              "on every run by regenerated constants and a differential run of the three Go packages against the model (vm_compute). The mux replay used for that "
+              "(stimuli, quiescence, recorded hand-offs) is proved sound: every accepted history is a run of the LTS with exactly the recorded visible actions, and the "
+              "recorded snapshots are states of that run, so the handler theorems hold of the recorded states.")
 LEVEL_NOTE = ("Trusted: Coq kernel + vm_compute; hand-written model (tie is sampled differential testing + regenerated Params); python/Go glue. "
-              "No axioms. Not proved: net/http request parsing, http.Client forwarding, UDP relay datagram path, spontaneous base-listener failure.")
+              "No axioms. The mux replay is sound but not complete (it runs the code's own sections in one fixed order between stimuli; not a general tau-closure acceptor). Not proved: net/http request parsing, http.Client forwarding, UDP relay datagram path, spontaneous base-listener failure.")
 TECHNIQUE = "Coq proof (pure functions over byte scripts; invariants over an LTS of atomic sections) on a hand-written model + differential correspondence check in vm_compute"
 DESIGN_REF = "DESIGN.md section 4 C18"
